@@ -550,7 +550,7 @@ def _make_parser() -> argparse.ArgumentParser:
     ln_opt_group.add_argument(
         "--configuration",
         "-c",
-        nargs="*",
+        nargs="*", action="extend",
         type=pathlib.Path,
         help=textwrap.dedent(
             """
